@@ -120,6 +120,10 @@ fn scenarios() -> Vec<Sc> {
 const E2_CASES: u64 = 6;
 /// starvation inside a processing chunk: internal buffer {4,8} x frames available {2..ibs-1} x stalled callbacks {0,1,2}
 const STARVE_CASES: u64 = 2;
+/// the real symphonia decoder on files that end before the frame the scheduler expects
+const EOF_CASES: u64 = 2;
+/// one switch to the decoder inside a callback: every stream.* sync point of the audio thread x decoder run length
+const MIDCB_CASES: u64 = 4;
 
 impl Check for C10 {
 	fn id(&self) -> &'static str {
@@ -129,12 +133,17 @@ impl Check for C10 {
 		Level::FaultEnumeration
 	}
 	fn num_cases(&self, _tier: Tier) -> u64 {
-		scenarios().len() as u64 + E2_CASES + STARVE_CASES
+		scenarios().len() as u64 + E2_CASES + STARVE_CASES + EOF_CASES + MIDCB_CASES
 	}
 	fn describe(&self, _tier: Tier, idx: u64) -> String {
 		let sc = scenarios();
 		if (idx as usize) < sc.len() {
 			format!("{:?}", sc[idx as usize])
+		} else if idx >= sc.len() as u64 + E2_CASES + STARVE_CASES + EOF_CASES {
+			let w = idx - sc.len() as u64 - E2_CASES - STARVE_CASES - EOF_CASES;
+			format!("one decoder burst inside a callback: 12-frame {} stream, internal buffer 4, decoder {} frames ahead when the callback begins; at the n-th pass of the audio thread through a stream.* sync point (every n) the decoder runs k iterations (k = 1..14)", if w % 2 == 0 { "finite" } else { "looping" }, if w / 2 == 0 { 3 } else { 6 })
+		} else if idx >= sc.len() as u64 + E2_CASES + STARVE_CASES {
+			format!("symphonia decoder, {}: the sound stops, the error (if any) can be popped, the decoder thread ends and releases the file", ["wav whose header promises 2000 frames but whose data ends after 1000", "intact wav of 1000 frames played with a slice that extends beyond its end"][(idx - sc.len() as u64 - E2_CASES - STARVE_CASES) as usize])
 		} else if idx >= sc.len() as u64 + E2_CASES {
 			format!("starvation inside a chunk: internal buffer {}: the ring holds 2..ibs-1 frames when a full-size callback begins, 0..2 further callbacks are starved completely, then the decoder catches up (40-frame stream with non-linear index codes)", [4, 8][(idx - sc.len() as u64 - E2_CASES) as usize])
 		} else {
@@ -146,6 +155,10 @@ impl Check for C10 {
 		if (idx as usize) < sc.len() {
 			let s = sc[idx as usize];
 			format!("event {:?} place {:?}", s.event, s.place)
+		} else if idx >= sc.len() as u64 + E2_CASES + STARVE_CASES + EOF_CASES {
+			"decoder burst inside a callback".to_string()
+		} else if idx >= sc.len() as u64 + E2_CASES + STARVE_CASES {
+			"symphonia decoder past the end of the data".to_string()
 		} else if idx >= sc.len() as u64 + E2_CASES {
 			"starvation inside a chunk".to_string()
 		} else {
@@ -164,8 +177,8 @@ impl Check for C10 {
 	fn extra_evidence(&self, tier: Tier) -> Vec<(String, J)> {
 		vec![("preemption_bound".into(), J::s(tier.pick("2", "3")))]
 	}
-	fn case_timeout_ms(&self, _tier: Tier) -> u64 {
-		600_000
+	fn case_timeout_ms(&self, tier: Tier) -> u64 {
+		tier.pick(600_000, 1_800_000)
 	}
 	fn run_case(&self, tier: Tier, idx: u64, ctx: &mut Ctx) {
 		let sc = scenarios();
@@ -175,6 +188,18 @@ impl Check for C10 {
 			ctx.evals += 1;
 			if let Err(p) = catch(|| run(&s, ctx)) {
 				ctx.fail(format!("panic: {} :: {:?}", p, s.event), format!("{:?}", s));
+			}
+		} else if idx >= sc.len() as u64 + E2_CASES + STARVE_CASES + EOF_CASES {
+			pacer::set_mode(pacer::Mode::Pacer);
+			let w = idx - sc.len() as u64 - E2_CASES - STARVE_CASES - EOF_CASES;
+			if let Err(p) = catch(|| mid_callback(w % 2 == 1, if w / 2 == 0 { 3 } else { 6 }, ctx)) {
+				ctx.fail(format!("panic: {} :: decoder burst inside a callback", p), format!("scenario {}", w));
+			}
+		} else if idx >= sc.len() as u64 + E2_CASES + STARVE_CASES {
+			pacer::set_mode(pacer::Mode::Pacer);
+			let w = idx - sc.len() as u64 - E2_CASES - STARVE_CASES;
+			if let Err(p) = catch(|| past_eof(w, ctx)) {
+				ctx.fail(format!("panic: {} :: symphonia decoder past the end of the data", p), format!("scenario {}", w));
 			}
 		} else if idx >= sc.len() as u64 + E2_CASES {
 			pacer::set_mode(pacer::Mode::Pacer);
@@ -790,6 +815,8 @@ fn e2(tier: Tier, which: u64, ctx: &mut Ctx) {
 			let mut buf = vec![0.0f32; 4];
 			for _ in 0..2 {
 				rig::callback(m, &mut buf, 2, 2);
+				o.heard.push(idx_of(buf[0]));
+				o.heard.push(idx_of(buf[2]));
 			}
 			o.states.push(format!("{:?}", h.state()));
 			while let Some(e) = h.pop_error() {
@@ -872,6 +899,13 @@ fn e2(tier: Tier, which: u64, ctx: &mut Ctx) {
 			}
 			last = Some(*h);
 		}
+		if which == 0 && res.end == sched::EndKind::Completed && o.panics.is_empty() {
+			// a finite stream is played to its end: a slow decoder costs at most a frame per gap, never the tail
+			let maxh = o.heard.iter().flatten().filter(|h| **h != usize::MAX).max().copied();
+			if o.states.last().map(|s| s.as_str()) == Some("Stopped") && maxh.map(|h| h + 2 < LEN).unwrap_or(true) {
+				fails.push((format!("a finite stream is reported Stopped before its last frames were played :: E2 {}", name), sd()));
+			}
+		}
 		if which == 3 {
 			if o.popped.len() != 1 || !o.popped[0].contains("ScriptedDecodeFailure(3)") {
 				fails.push((format!("the first decode error is not popped exactly once from the handle :: E2 {}", name), sd()));
@@ -888,6 +922,7 @@ fn e2(tier: Tier, which: u64, ctx: &mut Ctx) {
 		}
 	};
 	let stats = sched::explore(tier.pick(Some(2), Some(3)), 300_000, &mut body, &mut judge);
+	sched::report(ctx, &stats);
 	if let Some(e) = stats.error {
 		ctx.fail(format!("MACHINERY: scheduler error: {}", e), name.to_string());
 	}
@@ -905,4 +940,245 @@ fn e2(tier: Tier, which: u64, ctx: &mut Ctx) {
 	for (s, d) in fails {
 		ctx.fail(s, d);
 	}
+}
+
+// ---------------------------------------------------------------------------------------------
+// the real file decoder when the data ends early: the thread still ends
+
+/// file bytes that record that they were dropped (= the decoder, which owns the cursor over them, was released)
+struct DropFlagBytes(Vec<u8>, Arc<std::sync::atomic::AtomicBool>);
+impl AsRef<[u8]> for DropFlagBytes {
+	fn as_ref(&self) -> &[u8] {
+		&self.0
+	}
+}
+impl Drop for DropFlagBytes {
+	fn drop(&mut self) {
+		self.1.store(true, Ordering::SeqCst);
+	}
+}
+
+fn wav16(frames_in_header: u32, frames_present: u32, rate: u32) -> Vec<u8> {
+	let mut v = vec![];
+	let data_len = frames_in_header * 2;
+	v.extend_from_slice(b"RIFF");
+	v.extend_from_slice(&(36 + data_len).to_le_bytes());
+	v.extend_from_slice(b"WAVEfmt ");
+	v.extend_from_slice(&16u32.to_le_bytes());
+	v.extend_from_slice(&1u16.to_le_bytes());
+	v.extend_from_slice(&1u16.to_le_bytes());
+	v.extend_from_slice(&rate.to_le_bytes());
+	v.extend_from_slice(&(rate * 2).to_le_bytes());
+	v.extend_from_slice(&2u16.to_le_bytes());
+	v.extend_from_slice(&16u16.to_le_bytes());
+	v.extend_from_slice(b"data");
+	v.extend_from_slice(&data_len.to_le_bytes());
+	for i in 0..frames_present {
+		v.extend_from_slice(&(((i % 64) as i16 - 32) * 256).to_le_bytes());
+	}
+	v
+}
+
+fn past_eof(which: u64, ctx: &mut Ctx) {
+	ctx.evals += 1;
+	let rate = 8000u32;
+	let bytes = if which == 0 { wav16(2000, 1000, rate) } else { wav16(1000, 1000, rate) };
+	let dropped = Arc::new(std::sync::atomic::AtomicBool::new(false));
+	let desc = if which == 0 { "wav header promises 2000 frames, data ends after 1000" } else { "intact 1000-frame wav, slice 500..3000 frames" };
+	let src = std::io::Cursor::new(DropFlagBytes(bytes, dropped.clone()));
+	let data = match StreamingSoundData::from_cursor(src) {
+		Ok(d) => d,
+		Err(e) => {
+			// refusing the file is a legitimate answer; the source must have been released
+			ctx.count("past_eof_refused_at_open", 1);
+			let _ = e;
+			return;
+		}
+	};
+	let data = if which == 1 { data.slice(Region { start: kira::sound::PlaybackPosition::Samples(500), end: kira::sound::EndPosition::Custom(kira::sound::PlaybackPosition::Samples(3000)) }) } else { data };
+	let mut m = rig::manager(rate, 64, rig::caps(2), MainTrackBuilder::new());
+	let first = pacer::count();
+	let mut h = match m.play(data) {
+		Ok(h) => h,
+		Err(_) => {
+			ctx.count("past_eof_refused_at_play", 1);
+			return;
+		}
+	};
+	let mut buf = vec![0.0f32; 128];
+	let mut hung = false;
+	let mut popped = vec![];
+	for _ in 0..48 {
+		// 64 decoder iterations per 64-frame callback; an iteration that does not come back within 1.5 s is a hang
+		let t0 = std::time::Instant::now();
+		let timed_out = std::cell::Cell::new(false);
+		pacer::step_or(first, 64, &|| {
+			timed_out.set(t0.elapsed() > std::time::Duration::from_millis(1500));
+			timed_out.get()
+		});
+		if timed_out.get() {
+			hung = true;
+			break;
+		}
+		let rep = rig::callback(&mut m, &mut buf, 64, 2);
+		if !rep.ok() {
+			ctx.fail(format!("callback monitor: {:?} :: symphonia decoder past the end of the data", rep.panic.clone().or(rep.bad_sample.clone())), desc);
+			return;
+		}
+		while let Some(e) = h.pop_error() {
+			popped.push(format!("{:?}", e));
+		}
+		if h.state() == PlaybackState::Stopped && pacer::exited(first) {
+			break;
+		}
+	}
+	if hung {
+		ctx.fail("the decoder thread never finishes a decode-loop iteration (it spins inside the decoder) :: symphonia decoder past the end of the data", format!("{}; state {:?}, errors popped {:?}", desc, h.state(), popped));
+		return;
+	}
+	let st = h.state();
+	if st != PlaybackState::Stopped {
+		ctx.fail("the sound is not Stopped long after its data ended :: symphonia decoder past the end of the data", format!("{}; state {:?}, errors popped {:?}", desc, st, popped));
+	}
+	if !pacer::exited(first) {
+		// give it the documented way out
+		h.stop(tw(0.0, rate));
+		rig::callback(&mut m, &mut buf, 64, 2);
+		pacer::step_or(first, 8, &|| false);
+	}
+	let t0 = std::time::Instant::now();
+	while !dropped.load(Ordering::SeqCst) && t0.elapsed() < std::time::Duration::from_millis(500) {
+		std::thread::sleep(std::time::Duration::from_millis(2));
+	}
+	if !dropped.load(Ordering::SeqCst) {
+		ctx.fail("the decoder thread does not end / release the file after the sound stopped :: symphonia decoder past the end of the data", format!("{}; state {:?}, errors popped {:?}", desc, h.state(), popped));
+	}
+	ctx.nontrivial_extra += 1;
+	ctx.state(hash64(&("eof", which, popped.len())));
+	ctx.outcome(hash64(&("eof", which, popped.is_empty())));
+}
+
+// ---------------------------------------------------------------------------------------------
+// one deviation from "the decoder runs between callbacks": a burst of k decoder iterations placed at every sync
+// point the audio thread passes inside one callback (the decoder's progress before that callback is a parameter).
+// This is the preemption-bound-1 slice of the interleaving space with the run length of the preempting thread
+// enumerated, on a stream long enough for the ring to run dry and refill.
+
+fn mid_callback(looping: bool, ahead: u64, ctx: &mut Ctx) {
+	const N: usize = 12;
+	let codes: Vec<f32> = (0..N).map(|i| (1 + (i * 5) % N) as f32 / 32.0).collect();
+	let ibs = 4usize;
+	// how many stream.* points does the audio thread pass in the observed callback? (dry run, no injection fires)
+	let mut n_points = 0u64;
+	let mut nth = 0u64;
+	loop {
+		nth += 1;
+		let mut any_fired = false;
+		for k in 1..=14u64 {
+			ctx.evals += 1;
+			let mut m = rig::manager(SR, ibs, rig::caps(2), MainTrackBuilder::new());
+			let first = pacer::count();
+			let frames: Vec<Frame> = codes.iter().map(|c| Frame::new(*c, -*c / 2.0)).collect();
+			let (dec, stats) = ScriptedDecoder::new(frames, SR, vec![2, 1, 3], 1);
+			let mut data = StreamingSoundData::from_decoder(dec);
+			if looping {
+				data = data.loop_region(Region::from(..));
+			}
+			let mut h = m.play(data).map_err(|_| ()).expect("play");
+			let mut buf = vec![0.0f32; ibs * 2];
+			let mut heard: Vec<f32> = vec![];
+			let mut record = |buf: &[f32], heard: &mut Vec<f32>| {
+				for i in 0..ibs {
+					heard.push(buf[2 * i]);
+				}
+			};
+			// callback 0: adoption; the decoder is `ahead` frames ahead when callback 1 (the observed one) begins
+			pacer::step(first, ahead);
+			rig::callback(&mut m, &mut buf, ibs, 2);
+			record(&buf, &mut heard);
+			pacer::arm_injection(first, nth, k);
+			let rep = rig::callback(&mut m, &mut buf, ibs, 2);
+			let (site, seen) = pacer::disarm_injection();
+			record(&buf, &mut heard);
+			n_points = n_points.max(seen);
+			let fired = site.is_some();
+			any_fired |= fired;
+			let desc = || format!("12-frame {} stream (frame i = (1 + 5i mod 12)/32), internal buffer 4; decoder {} iterations ahead; in the second callback, at pass #{} of the audio thread through a stream.* sync point ({}), the decoder runs {} iterations; afterwards it keeps ahead", if looping { "looping" } else { "finite" }, ahead, nth, site.unwrap_or("-"), k);
+			// (kind of deviation - part of the signature, detail)
+			let mut bad: Option<(String, String)> = None;
+			if !rep.ok() {
+				bad = Some(("the callback monitor reports".into(), format!("{:?}", rep)));
+			}
+			// afterwards the decoder keeps ahead
+			for _ in 0..8 {
+				pacer::step(first, ibs as u64 + 4);
+				let rep = rig::callback(&mut m, &mut buf, ibs, 2);
+				if !rep.ok() && bad.is_none() {
+					bad = Some(("the callback monitor reports".into(), format!("{:?}", rep)));
+				}
+				record(&buf, &mut heard);
+			}
+			if bad.is_none() && fired {
+				let idx_of = |v: f32| codes.iter().position(|c| *c == v);
+				let mut last: Option<usize> = None;
+				let mut gap = false;
+				let mut seen_frames = 0usize;
+				for (j, v) in heard.iter().enumerate() {
+					if *v == 0.0 {
+						gap = true;
+						continue;
+					}
+					match idx_of(*v) {
+						None => {
+							bad = Some(("a frame that is not in the source is heard".into(), format!("output frame {} = {}", j, v)));
+							break;
+						}
+						Some(i) => {
+							if let Some(l) = last {
+								let nxt = |x: usize, d: usize| if looping { (x + d) % N } else { x + d };
+								if !(i == nxt(l, 1) || (gap && i == nxt(l, 2))) {
+									let lost = if looping { (i + N - l - 1) % N } else { i.wrapping_sub(l + 1) };
+									let kind = if !looping && i <= l || lost > N / 2 { "frames are repeated or reordered".to_string() } else { format!("{} source frames are lost in one gap (the statement allows one)", lost) };
+									bad = Some((kind, format!("output frame {}: source frame {} after source frame {}", j, i, l)));
+									break;
+								}
+							}
+							last = Some(i);
+							gap = false;
+							seen_frames += 1;
+						}
+					}
+				}
+				if bad.is_none() && !looping {
+					if last.map(|l| l + 2 < N).unwrap_or(true) {
+						bad = Some(("the stream is reported finished before its last frames were played".into(), format!("last source frame heard {:?}, {} frames heard", last, seen_frames)));
+					} else if h.state() != PlaybackState::Stopped {
+						bad = Some(("the sound is not Stopped long after its last frame".into(), format!("state {:?}", h.state())));
+					}
+				}
+				if bad.is_none() && looping && h.state() == PlaybackState::Stopped {
+					bad = Some(("a looping stream stopped by itself".into(), String::new()));
+				}
+			}
+			if let Some((kind, b)) = bad {
+				ctx.fail(
+					format!("a decoder that runs in a burst inside a callback causes more than a gap of silence: {} :: decoder burst inside a callback", kind),
+					format!("{}; {}; heard (x32) {:?}", desc(), b, heard.iter().map(|v| (v * 32.0) as i32).collect::<Vec<_>>()),
+				);
+			}
+			if fired {
+				ctx.nontrivial_extra += 1;
+				ctx.state(hash64(&("midcb", looping, ahead, nth, k)));
+			}
+			h.stop(tw(0.0, SR));
+			rig::callback(&mut m, &mut buf, ibs, 2);
+			drop(m);
+			crate::probes::reap_decoder(first, &stats);
+		}
+		if !any_fired || nth > 200 {
+			break;
+		}
+	}
+	ctx.count(&format!("midcb_sync_points_in_the_observed_callback[looping={} ahead={}]", looping, ahead), n_points);
+	ctx.outcome(hash64(&("midcb", looping, ahead)));
 }
